@@ -22,7 +22,7 @@ def run(ctx):
         s["fault"] = {"key": key, "mode": "persistent"}
         fam.append(s)
     out = ctx.path("matrix.json")
-    args = {"scenarios": fam, "seed": ctx.seed, "repeat": 2 if quick else 6, "out": out}
+    args = {"scenarios": fam, "seed": ctx.seed, "repeat": ctx.n(2, 6), "out": out}
     r = ctx.vh("matrix", args, timeout=3000)
     ctx.evaluations += r["runs"]
     ctx.distinct += r["configs"] * len(fam)
@@ -31,19 +31,19 @@ def run(ctx):
         ctx.violation("C06: " + v["what"], {"kind": "matrix", "scenario": v["scenario"], "configs": v["configs"]})
     # controlled schedules: the observable of one block must not depend on the interleaving either
     for workers in (1, 2, 3):
-        rr, o, a = se.controlled(ctx, ["rmw3", "dd3", "t_nonce_gap_dup"], 25 if quick else 1500, workers=workers, tag=f"w{workers}")
+        rr, o, a = se.controlled(ctx, ["rmw3", "dd3", "t_nonce_gap_dup"], ctx.n(25, 1500), workers=workers, tag=f"w{workers}")
         se.report(ctx, rr, a, "C06", also=("C01", "C03"))
     # a failure seen only by a stale attempt must not decide the block under any timing: the specification's
     # counterexample for the guard (attempt started before its predecessor committed) replayed on the code
     w = se.witness(ctx, "GHeadAtStart", "stale_fatal2_nocheck", regenerate=False)
     if w["found"]:
-        se.replay_witness(ctx, w, "C06", also=("C01", "C04"), extra_runs=6 if quick else 40)
+        se.replay_witness(ctx, w, "C06", also=("C01", "C04"), extra_runs=ctx.n(6, 40))
     for b in ("stale_fatal2_nocheck", "stale_fatal2", "invalid_stale2"):
         g = se.goal(ctx, "CommitDuringFailedAttempt", b)
         ctx.guards[f"goal CommitDuringFailedAttempt on {b}"] = f"reached at depth {g['depth']}" if g["found"] else "not reachable"
         if g["found"]:
-            se.replay_witness(ctx, g, "C06", also=("C01", "C04"), extra_runs=4 if quick else 30)
-    rr, o, a = se.controlled(ctx, ["stale_fatal2_nocheck", "stale_fatal2", "invalid_stale2", "invalid_mid_fault4"], 100 if quick else 4000, workers=2, tag="err_w2")
+            se.replay_witness(ctx, g, "C06", also=("C01", "C04"), extra_runs=ctx.n(4, 30))
+    rr, o, a = se.controlled(ctx, ["stale_fatal2_nocheck", "stale_fatal2", "invalid_stale2", "invalid_mid_fault4"], ctx.n(100, 4000), workers=2, tag="err_w2")
     se.report(ctx, rr, a, "C06", also=("C01", "C03", "C04"))
     se.validate(ctx, rr, o, "trace_err_w2")
     ctx.rule = ("one case = (block, configuration): workers 1/2/3/8, min_parallel_txs 0 / n / n+1, force_sequential, entry point execute / "
